@@ -512,8 +512,8 @@ def classify(failure):
 
 def search(ctx):
     # only reached when the correspondence / a proof is broken and the main run found no failing input:
-    # one more pass with fresh values, capped at 20 s (every dialect is visited within the cap)
-    run(ctx, rng_name="search", draws=(1, 1), budget_s=20)
+    # one more pass with fresh values, capped at 12 s (every dialect is visited within the cap)
+    run(ctx, rng_name="search", draws=(1, 1), budget_s=12)
 
 
 def replay(ctx, case):
